@@ -22,22 +22,58 @@ MAX_NODES = 1500
 SIDE_EFFECT_KINDS = ('call', 'construct', 'lambda', 'new', 'delete', 'throw')
 
 
+_ANCHOR_QUAL = None
+
+
 def anchor_names():
-    """Short function names that occur in the rule sources: those functions are anchors and are never inlined."""
-    global _ANCHOR_NAMES
+    """(unqualified, qualified): short function names the rule sources mention without a resolvable class, and fully
+    qualified names built as <CONST> + '::name' where CONST is a module-level string of that rule module. Functions so
+    named are anchors and are never inlined."""
+    global _ANCHOR_NAMES, _ANCHOR_QUAL
     if _ANCHOR_NAMES is None:
-        names = set(EXTRA_ANCHORS)
+        names, qual = set(EXTRA_ANCHORS), set()
         here = os.path.dirname(os.path.abspath(__file__))
-        for f in glob.glob(os.path.join(here, '*.py')):
-            if os.path.basename(f) in ('inline.py', 'selftest.py'):
+        import importlib
+        for f in sorted(glob.glob(os.path.join(here, '*.py'))):
+            base = os.path.basename(f)[:-3]
+            if base in ('inline', 'selftest'):
                 continue
             s = open(f).read()
-            for m in re.finditer(r"::(~?[A-Za-z_][A-Za-z_0-9]*)['\" (%]", s):
-                names.add(m.group(1))
+            consts = {}
+            try:
+                mod = importlib.import_module(base)
+                consts = {k: v for k, v in vars(mod).items() if isinstance(v, str) and k.isupper() or (isinstance(v, str) and len(k) <= 3)}
+            except Exception:
+                consts = {}
+            for m in re.finditer(r"([A-Za-z_][A-Za-z_0-9]*)\s*\+\s*'::(~?[A-Za-z_][A-Za-z_0-9]*)['\" (%]", s):
+                var, nm = m.group(1), m.group(2)
+                if var in consts and '::' in consts[var]:
+                    qual.add(consts[var] + '::' + nm)
+                else:
+                    names.add(nm)
+            for m in re.finditer(r"'((?:sim|boost|std)::[A-Za-z_0-9:]*)::(~?[A-Za-z_][A-Za-z_0-9]*)['\" (%]", s):
+                qual.add(m.group(1) + '::' + m.group(2))
+            # names that stand alone in a string literal (format arguments, tuples of method names)
             for m in re.finditer(r"['\"](~?[a-z_][a-z_0-9]*)['\"]", s):
                 names.add(m.group(1))
+            for m in re.finditer(r"(?<![A-Za-z_0-9 +])\s*'::(~?[A-Za-z_][A-Za-z_0-9]*)['\" (%]", s):
+                names.add(m.group(1))
+        # a short name that only ever occurs qualified is an anchor for those classes only
+        qshort = {x.split('::')[-1] for x in qual}
         _ANCHOR_NAMES = names
+        _ANCHOR_QUAL = qual
     return _ANCHOR_NAMES
+
+
+def is_anchor(g):
+    names = anchor_names()
+    short = g.norm.split('::')[-1]
+    if g.norm in _ANCHOR_QUAL:
+        return True
+    if short in names:
+        # mentioned somewhere without a class: conservative, unless every mention we could resolve names another class
+        return True
+    return False
 
 
 PURE_METHODS = ('size', 'data', 'begin', 'end', 'empty', 'front', 'back', 'get', 'address', 'port', 'c_str', 'count', 'length')
@@ -80,8 +116,7 @@ def eligible(fx, fn, c, stack):
         return None
     if not g.file.startswith(simlib.REPO_PREFIX):
         return None
-    short = g.norm.split('::')[-1]
-    if short in anchor_names():
+    if is_anchor(g):
         return None
     if g.cls:
         if g.d.get('access') not in ('private', 'protected'):
